@@ -29,7 +29,7 @@ def log(*a):
 def hx_flags(variant):
     if variant == 'plain':
         return HX_FLAGS_PLAIN
-    if variant == 'tsan':
+    if variant.startswith('tsan'):
         return HX_FLAGS_TSAN
     return HX_FLAGS_SAN
 
